@@ -12,8 +12,8 @@ RULE = ("one case = (method by name or class, state shape, span direction, t_eva
         "trajectory bit-equal to the object API driven with the same settings, agreement with scipy.integrate.solve_ivp; non-trivial = call returned; distinct "
         "by (method, shape, direction, t_eval kind, options, seed)")
 ASSUMPTIONS = ["'exactly those times' is read up to the landing rounding of C03 (64 eps)", "accuracy unit: 200*(atol+rtol*|y|) for embedded pairs, comparison with scipy at 1e3 units"]
-FLOORS = {"quick": {"calls_checked": 150, "t_eval_calls": 70, "backward_calls": 40, "max_step_calls": 40, "args_calls": 40, "object_api_comparisons": 100, "scipy_comparisons": 60, "matrix_state_calls": 20},
-          "thorough": {"calls_checked": 1500, "t_eval_calls": 700, "backward_calls": 500, "max_step_calls": 400, "args_calls": 400, "object_api_comparisons": 1000, "scipy_comparisons": 600, "matrix_state_calls": 200}}
+FLOORS = {"quick": {"calls_checked": 150, "t_eval_calls": 70, "backward_calls": 40, "max_step_calls": 40, "args_calls": 40, "object_api_comparisons": 100, "scipy_comparisons": 60, "matrix_state_calls": 20, "sliver_max_step_calls": 18, "event_roots_on_output_times": 30},
+          "thorough": {"calls_checked": 1500, "t_eval_calls": 700, "backward_calls": 500, "max_step_calls": 400, "args_calls": 400, "object_api_comparisons": 1000, "scipy_comparisons": 600, "matrix_state_calls": 200, "sliver_max_step_calls": 120, "event_roots_on_output_times": 200}}
 METHODS = ["RK45", "RK45CK", "Dormand-Prince", "RK87", "RK108", "RadauIIA5", "LobattoIIIC4", "RK4", "RK5", "Midpoint", "ABAS5O6H", "GaussLegendre4", "BackwardEuler", "AHE"]
 CASE_TIMEOUT = 900
 
@@ -32,6 +32,22 @@ def gen_cases(tier, seed):
                           use_args=bool(rng.random() < 0.4), max_step=(float(10 ** rng.uniform(-1.5, -0.3)) if rng.random() < 0.35 else None),
                           first_step=(float(10 ** rng.uniform(-3, -1)) if rng.random() < 0.5 else None), rtol=float(10 ** rng.uniform(-8, -4)),
                           dense=bool(rng.random() < 0.4), events=bool(rng.random() < 0.3), pseed=int(rng.integers(1 << 30)), cost=4))
+    # designed strata (own random stream, so that the cases above stay what they were):
+    #  sliver   - max_step such that the span (or the distance to the next output time) is a whole number of max_step plus a sliver of one:
+    #             the closing step of a call must not absorb the sliver (it would be longer than max_step)
+    #  on_teval - an event function whose roots are bit-exactly some of the requested output times (located by the call that ends there and by
+    #             the call that starts there): every root is to be reported once, as without t_eval / by scipy
+    rng2 = rng_for(1803, seed)
+    for i in range(24 if tier == "quick" else 160):
+        m = ["RK4", "Midpoint", "RK45", "RK45CK", "RK87", "RK5"][int(rng2.integers(6))]
+        cases.append(dict(method=m, by_class=bool(rng2.random() < 0.3), direction=int(rng2.choice([1, -1])), shape=[3], t_eval=str(rng2.choice(["none", "none", "inner"])),
+                          use_args=False, max_step=None, sliver=[int(rng2.choice([6, 11, 19, 33])), float(rng2.choice([1e-6, 1e-3, 3e-3, 6e-3, 9e-3, 0.02, 0.1]))],
+                          first_step=None, rtol=1e-3, dense=bool(rng2.random() < 0.3), events=False, pseed=int(rng2.integers(1 << 30)), cost=4))
+    for i in range(24 if tier == "quick" else 160):
+        m = names[int(rng2.integers(len(names)))]
+        cases.append(dict(method=m, by_class=bool(rng2.random() < 0.3), direction=int(rng2.choice([1, -1])), shape=[3], t_eval=str(rng2.choice(["inner", "with_ends", "unsorted"])),
+                          use_args=bool(rng2.random() < 0.3), max_step=None, first_step=(float(10 ** rng2.uniform(-3, -1)) if rng2.random() < 0.5 else None),
+                          rtol=float(10 ** rng2.uniform(-8, -4)), dense=bool(rng2.random() < 0.4), events="on_teval", pseed=int(rng2.integers(1 << 30)), cost=4))
     return cases
 
 
@@ -72,6 +88,9 @@ def run_case(spec):
     y0c = y0.copy()
     rtol, atol = spec["rtol"], spec["rtol"] * 1e-2
     opts = dict(rtol=rtol, atol=atol)
+    if spec.get("sliver"):
+        spec = dict(spec, max_step=L / (spec["sliver"][0] + spec["sliver"][1]))
+        opts["first_step"] = spec["max_step"]
     if spec["max_step"] is not None:
         opts["max_step"] = spec["max_step"]
     if spec["first_step"] is not None:
@@ -89,7 +108,21 @@ def run_case(spec):
         if spec["t_eval"] in ("unsorted", "repeated"):
             te = rng.permutation(te)
     evs = None
-    if spec["events"]:
+    ev_roots = None
+    if spec["events"] == "on_teval":
+        inner = np.sort(np.unique(te))
+        inner = inner[(inner != t0) & (inner != tf)]
+        ev_roots = [float(x) for x in rng.choice(inner, size=min(len(inner), int(rng.integers(2, 4))), replace=False)]
+        ev_scale = float(10 ** rng.uniform(-2, 2))
+
+        def ev(t, y, *a, **k):
+            out = ev_scale
+            for r_ in ev_roots:
+                out = out * (t - r_)
+            return out
+        ev.terminal = False
+        evs = [ev]
+    elif spec["events"]:
         def ev(t, y, *a, **k):
             return np.asarray(y).reshape(-1)[-1] - d * 0.37 * L
         ev.terminal = False
@@ -138,6 +171,13 @@ def run_case(spec):
         rec.violate("facade_fields", "dense_output_requested_but_sol_is_None", feats)
     if len(res.t_events) != len(osys.events):
         rec.violate("facade_fields", "events_differ_from_underlying_system", feats)
+    # ---- every root that sits on a requested output time is reported exactly once, in the order met
+    if ev_roots is not None:
+        rec.bump("event_roots_on_output_times", len(ev_roots))
+        got = [float(e.t) for e in osys.events]
+        want_ev = sorted(ev_roots, reverse=(d < 0))
+        if len(got) != len(want_ev) or max(abs(a_ - b_) for a_, b_ in zip(got, want_ev)) > 1e-7 * max(1.0, L):
+            rec.violate("events_on_output_times", "roots_on_requested_output_times_not_reported_exactly_once", feats, got=got[:10], want=want_ev)
     # ---- times
     if te is None:
         if float(t[0]) != t0 or not np.array_equal(ycols[:, 0], y0.reshape(-1)):
@@ -179,6 +219,8 @@ def run_case(spec):
     # ---- max_step
     if spec["max_step"] is not None:
         rec.bump("max_step_calls")
+        if spec.get("sliver"):
+            rec.bump("sliver_max_step_calls")
         st = np.abs(np.diff(np.asarray(osys.t)))
         if len(st) and float(np.max(st)) > spec["max_step"] * (1 + 64 * eps) + 64 * eps * max(abs(t0), abs(tf)):
             rec.violate("max_step", "recorded_step_longer_than_max_step", feats, longest=float(np.max(st)), max_step=spec["max_step"])
